@@ -5,6 +5,6 @@ for d in seeded/*/; do
   n=$(basename $d)
   id=$(python3 -c "import json;print(json.load(open('$d/meta.json'))['property'])")
   tier=$(python3 -c "import json;print((json.load(open('$d/meta.json')).get('detected_by') or {}).get('tier','quick'))")
-  out=$(tools/try_mutant.sh $d/patch.diff $id $tier 2>&1 | tail -1)
+  out=$(tools/try_mutant.sh /verif/$d/patch.diff $id $tier 2>&1 | tail -1)
   echo "$n $id $tier $out"
 done
